@@ -164,4 +164,151 @@ theorem child_in_standard_rejected (e : BEnv) (Γ : Ctx) (cfg : ParserConfig) (v
       = .error (.context "StandardNode node doesn't support child nodes!") := by
   simp [parseNode]
 
+
+/-! ## 5. unknown attributes -/
+
+/-- **unknown_attr_policy** (decision table of `ElementNode.bind_attrs`): an attribute that
+matches neither a declared attribute nor an `Attributes` field, at any position among the
+attributes, is ignored — unless `fail_on_unknown_attributes` is on *and* its name lies
+outside the xsi namespace, in which case a `ParserError` is raised as soon as the attributes
+before it are bound (an earlier failure keeps its own error).  The other two flags play no
+role (`∀ cfg`). -/
+theorem unknown_attr_policy {m : XmlMeta} {q : QN} (hq : unknownAttr m q = true)
+    (e : BEnv) (cfg : ParserConfig) (ns : NsMap) (v : Str) (a1 a2 : List (QN × Str)) :
+    bindAttrs e cfg m (a1 ++ (q, v) :: a2) ns =
+      if attrReported cfg q then thenFail (bindAttrs e cfg m a1 ns) (.parser "Unknown attribute")
+      else bindAttrs e cfg m (a1 ++ a2) ns := by
+  simp only [unknownAttr, Bool.and_eq_true, Option.isNone_iff_eq_none] at hq
+  unfold bindAttrs attrReported
+  split
+  · next h =>
+    apply foldlM_insert_fail
+    intro b
+    simp only [hq.1, hq.2, h]
+    rfl
+  · next h =>
+    apply foldlM_insert_noop
+    intro b
+    simp only [hq.1, hq.2, h]
+    rfl
+
+/-- row 1: option off → ignored -/
+theorem unknown_attr_ignored {m : XmlMeta} {q : QN} (hq : unknownAttr m q = true)
+    (e : BEnv) {cfg : ParserConfig} (hc : cfg.failOnUnknownAttributes = false)
+    (ns : NsMap) (v : Str) (a1 a2 : List (QN × Str)) :
+    bindAttrs e cfg m (a1 ++ (q, v) :: a2) ns = bindAttrs e cfg m (a1 ++ a2) ns := by
+  rw [unknown_attr_policy hq]; simp [attrReported, hc]
+
+/-- row 2: xsi namespace → always tolerated, even with the option on -/
+theorem xsi_attr_tolerated {m : XmlMeta} {q : QN} (hq : unknownAttr m q = true)
+    (hx : targetUri q = some xsiNs)
+    (e : BEnv) (cfg : ParserConfig) (ns : NsMap) (v : Str) (a1 a2 : List (QN × Str)) :
+    bindAttrs e cfg m (a1 ++ (q, v) :: a2) ns = bindAttrs e cfg m (a1 ++ a2) ns := by
+  rw [unknown_attr_policy hq]; simp [attrReported, hx]
+
+/-- row 3: option on, other namespace → `ParserError` once the attributes before it are bound -/
+theorem unknown_attr_strict_fails {m : XmlMeta} {q : QN} (hq : unknownAttr m q = true)
+    (hx : targetUri q ≠ some xsiNs)
+    (e : BEnv) {cfg : ParserConfig} (hc : cfg.failOnUnknownAttributes = true)
+    (ns : NsMap) (v : Str) (a1 a2 : List (QN × Str)) {r : Params × Nat}
+    (hpre : bindAttrs e cfg m a1 ns = .ok r) :
+    bindAttrs e cfg m (a1 ++ (q, v) :: a2) ns = .error (.parser "Unknown attribute") := by
+  rw [unknown_attr_policy hq]; simp [attrReported, hx, hc, hpre, thenFail]
+
+/-- Full-strength form on the whole element: an unknown attribute that is not reported
+never changes what the element parses to. -/
+def UnknownAttrInvariant : Prop :=
+  ∀ (e : BEnv) (Γ : Ctx) (cfg : ParserConfig) (m : XmlMeta) (q : QN),
+    unknownAttr m q = true → attrReported cfg q = false →
+    ∀ (v : Str) (a1 a2 : List (QN × Str)) (en : NsMap) (d : Bool) (xt : Option QN) (xn : Option Bool) (t : Tree),
+      parseNode e Γ cfg (.element m (a1 ++ (q, v) :: a2) en d xt xn) t
+        = parseNode e Γ cfg (.element m (a1 ++ a2) en d xt xn) t
+
+/-- **unknown_attr_invariant_partial**: it holds for classes without a wildcard field
+(`bind_wild_text` is the only other reader of the raw attributes). -/
+theorem unknown_attr_invariant_partial {e : BEnv} {Γ : Ctx} {cfg : ParserConfig} {m : XmlMeta} {q : QN}
+    (hq : unknownAttr m q = true) (hr : attrReported cfg q = false) (hw : m.wildcards = [])
+    (v : Str) (a1 a2 : List (QN × Str)) (en : NsMap) (d : Bool) (xt : Option QN) (xn : Option Bool) (t : Tree) :
+    parseNode e Γ cfg (.element m (a1 ++ (q, v) :: a2) en d xt xn) t
+      = parseNode e Γ cfg (.element m (a1 ++ a2) en d xt xn) t := by
+  obtain ⟨pq, pa, pn, pt, pc, ptl⟩ := t
+  have hwild : m.findAnyWildcard = none := by simp [XmlMeta.findAnyWildcard, hw]
+  simp [parseNode, unknown_attr_policy hq, hr, hwild]
+
+/-- **unknown_attr_invariant_root_partial**: lifted to `NodeParser.parse` for an unknown
+attribute on the root element (not `xsi:type` / `xsi:nil`, which are never unknown). -/
+theorem unknown_attr_invariant_root_partial {e : BEnv} {Γ : Ctx} {cfg : ParserConfig} {clazz : ClassId}
+    {m : XmlMeta} {q : QN} {a1 a2 : List (QN × Str)} {pn : NsMap}
+    (hm : rootMeta e Γ clazz (a1 ++ a2) pn = some m)
+    (hq : unknownAttr m q = true) (hr : attrReported cfg q = false) (hw : m.wildcards = [])
+    (h1 : q ≠ xsiType) (h2 : q ≠ xsiNil)
+    (v : Str) (pq : QN) (pt ptl : Option Str) (c : List Tree) :
+    parseRoot e Γ cfg clazz (.node pq (a1 ++ (q, v) :: a2) pn pt c ptl)
+      = parseRoot e Γ cfg clazz (.node pq (a1 ++ a2) pn pt c ptl) := by
+  simp only [parseRoot, bind, Except.bind, xsiTypeOf_insert h1, xsiNilOf_insert h2]
+  cases hx : xsiTypeOf e (a1 ++ a2) pn with
+  | error err => rfl
+  | ok xt =>
+    simp only
+    cases hf : Γ.fetch clazz none xt with
+    | error err => rfl
+    | ok m' =>
+      have : m' = m := by simpa [rootMeta, hx, hf] using hm
+      subst this
+      simp only
+      rw [unknown_attr_invariant_partial hq hr hw,
+        parseNode_element_tree_attrs e Γ cfg m' (a1 ++ a2) pn _ _ _ pq _ (a1 ++ a2) pn pn]
+
+/-! ## 6. values that do not convert -/
+
+/-- **convert_failure_policy**: when `converter.deserialize` raises for the given string,
+`ParserUtils.parse_var` keeps the value exactly as given and issues one
+`ConverterWarning` — or raises `ParserError` when `fail_on_converter_warnings` is on.
+`∀ cfg`: the two other flags have no influence. -/
+theorem convert_failure_policy {e : BEnv} {var : VarCore} {s : Str} {nsmap : NsMap}
+    {types : Option (List TypeRef)} (h : convFails e var s nsmap types = true) (cfg : ParserConfig) :
+    parseVar e cfg var (some s) nsmap types =
+      if cfg.failOnConverterWarnings then .error (.parser "Failed to convert value")
+      else .ok ⟨.prim (.str s), true⟩ := by
+  unfold convFails at h
+  unfold parseVar
+  by_cases ht : var.tokens = true
+  · simp only [ht, if_true, Option.isNone_iff_eq_none] at h
+    simp only [ht, if_true, h]
+  · simp only [ht, Bool.false_eq_true, if_false, Option.isNone_iff_eq_none] at h
+    simp only [ht, Bool.false_eq_true, if_false, h]
+
+/-- **convert_success_silent**: conversely a value that converts never warns and never
+fails, whatever the flags: the warning count is exactly the number of failed conversions. -/
+theorem convert_success_silent {e : BEnv} {var : VarCore} {s : Str} {nsmap : NsMap}
+    {types : Option (List TypeRef)} (h : convFails e var s nsmap types = false) (cfg : ParserConfig) :
+    ∃ v, parseVar e cfg var (some s) nsmap types = .ok ⟨v, false⟩ := by
+  unfold convFails at h
+  unfold parseVar
+  by_cases ht : var.tokens = true
+  · simp only [ht, if_true] at h
+    cases hm : (pySplitWs e.py s).mapM (fun t => deserialize e t (types.getD var.types) nsmap) with
+    | none => simp [hm] at h
+    | some vs => exact ⟨.list (vs.map .prim), by simp only [ht, if_true, hm]⟩
+  · simp only [ht, Bool.false_eq_true, if_false] at h
+    cases hm : deserialize e s (types.getD var.types) nsmap with
+    | none => simp [hm] at h
+    | some v => exact ⟨.prim v, by simp only [ht, Bool.false_eq_true, if_false, hm]⟩
+
+/-- **convert_failure_primitive**: the policy seen on a simple-typed child element
+(`PrimitiveNode`): lenient → the element's text as a string plus one warning;
+strict → `ParserError`. -/
+theorem convert_failure_primitive {e : BEnv} {var : XmlVar} {s : Str} {ns : NsMap}
+    (h : convFails e var.toVarCore s ns none = true) (Γ : Ctx) (cfg : ParserConfig) (pm : XmlMeta)
+    (q : QN) (a : List (QN × Str)) (n : NsMap) (tl : Option Str) :
+    parseNode e Γ cfg (.primitive pm var ns) (.node q a n (some s) [] tl) =
+      if cfg.failOnConverterWarnings then .error (.parser "Failed to convert value")
+      else .ok ⟨[(some q, .prim (.str s))] ++
+                (match (if pm.mixedContent then normalizeContent e.py tl else none) with
+                 | some t => [(none, .prim (.str t))]
+                 | none => []), 1⟩ := by
+  simp only [parseNode, List.isEmpty_nil, Bool.not_true, Bool.false_eq_true, if_false,
+    convert_failure_policy h, bind, Except.bind]
+  cases cfg.failOnConverterWarnings <;> rfl
+
 end Props.C10
